@@ -205,6 +205,11 @@ def run(repo, rep, tier):
     _quote_paths(repo, rep, tier)
     _entities(repo, rep)
     _precheck(repo, rep)
+    # the opt-out "text mode" is a property of the template object: a shared
+    # loader must not answer a request for a markup template with the text
+    # template it built earlier for the same file (C14 owns the registry key)
+    from . import c14
+    L.borrow(repo, rep, "R02.5", "C14", c14._publish, ("registry-key",))
     L.state_rule(repo, rep)
 
 
